@@ -48,7 +48,7 @@ def Fixes.all : Fixes := ⟨true, true, true, true, true, true⟩
 
 /-- **THE SWITCH**: the state of `/repo/jaq-std/src/time.rs` that the check compares with.
 `Fixes.none` = the tree as found; set the flags (or `Fixes.all`) after applying the diffs. -/
-def treeFixes : Fixes := Fixes.none
+def treeFixes : Fixes := Fixes.all
 
 structure Build where
   /-- `-C overflow-checks` (on in debug builds and in the verification harness) -/
